@@ -27,13 +27,16 @@ type Spec struct {
 	NOracle int
 	Gov     bool
 	GovOnly bool // governance operations and blocks only (the bridge obligations have their own job)
+	// DustStake: governance has lowered the delegate threshold below one power unit and every oracle is bonded with this
+	// many FX (< 100): all oracles are online with power zero
+	DustStake int64
 	w       *world.World
 	oracles map[string][]scen.Oracle
 	token   map[string]string // FX token contract on each chain
 }
 
 func (s *Spec) Name() string {
-	return fmt.Sprintf("c07/%s/o%d/gov=%v/govonly=%v", strings.Join(s.Chains, "+"), s.NOracle, s.Gov, s.GovOnly)
+	return fmt.Sprintf("c07/%s/o%d/gov=%v/govonly=%v/dust=%d", strings.Join(s.Chains, "+"), s.NOracle, s.Gov, s.GovOnly, s.DustStake)
 }
 
 func (s *Spec) Init() *explore.State {
@@ -48,6 +51,12 @@ func (s *Spec) Init() *explore.State {
 		for i := 0; i < s.NOracle; i++ {
 			names = append(names, fmt.Sprintf("%s-o%d", ch, i+1))
 			stakes = append(stakes, 10000)
+			if s.DustStake > 0 {
+				stakes[i] = s.DustStake
+			}
+		}
+		if s.DustStake > 0 {
+			scen.SetParams(w, ctx, ch, func(p *cctypes.Params) { p.DelegateThreshold = cctypes.NewDelegateAmount(world.FX(s.DustStake)) })
 		}
 		os := scen.SetupOracles(w, ctx, ch, names, stakes)
 		s.oracles[ch] = os
